@@ -201,6 +201,16 @@ func judge(sn *scenario) {
 	if crash {
 		mode = "crash"
 	}
+	budgetText := fmt.Sprintf("refused transmissions in total <= MaxRetries-2=%d", sc.MaxRetries-2)
+	phasedClass := ""
+	if sc.Phased {
+		pf, ok := judgePhased(sn)
+		if !ok {
+			return
+		}
+		budgetText = fmt.Sprintf("refused per phase %v (+%d after the restart), every record refused fewer than MaxRetries=%d times; %s", pf.down, pf.laterInc, sc.MaxRetries, pf.stopPos)
+		phasedClass = "/" + pf.stopPos
+	}
 
 	// ---- client-side facts from the journals
 	facts := make([]*sessFacts, len(sc.Sessions))
@@ -358,8 +368,8 @@ func judge(sn *scenario) {
 			w["session"] = s.ID
 			w["phase_of_session_at_crash"] = phase
 			w["directory_at_end"] = sn.incs[len(sn.incs)-1].DirAfter
-			run.Violation(comp, "eventual-stop", mode+"/"+phase+"/"+what,
-				fmt.Sprintf("session %s was started (%s) but no Accounting-Stop was accepted by the end of the scenario (server up, 90 s of virtual time after the last restart, refused transmissions %d <= MaxRetries-2=%d); phase %s; script %s", s.ID, what, nDown, sc.MaxRetries-2, phase, sc.String()), w)
+			run.Violation(comp, "eventual-stop", mode+"/"+phase+"/"+what+phasedClass,
+				fmt.Sprintf("session %s was started (%s) but no Accounting-Stop was accepted by the end of the scenario (server up, 90 s of virtual time after the last restart, %d refused transmissions: %s); phase %s; script %s", s.ID, what, nDown, budgetText, phase, sc.String()), w)
 		} else if started {
 			run.Count("started_sessions_with_accepted_stop", 1)
 		}
@@ -439,7 +449,7 @@ func judge(sn *scenario) {
 			}
 		}
 	}
-	if nDown > sc.MaxRetries-2 {
+	if nDown > sc.MaxRetries-2 && !sc.Phased {
 		// generator bug: would put the scenario outside the property's precondition
 		run.Inconclusive("script="+sc.ID, fmt.Sprintf("harness refused %d transmissions, budget %d", nDown, sc.MaxRetries-2))
 	}
